@@ -410,6 +410,9 @@ func (t *ControllableTask) Launch() error {
 				_ = stdoutIn.Close()
 				_ = stderrIn.Close()
 
+				// the task is given up: do not leave its process group behind
+				_ = t.doTermIntKill(-taskCmd.Process.Pid)
+
 				return
 			} else {
 				log.WithField("partition", t.knownEnvironmentId.String()).
@@ -455,6 +458,8 @@ func (t *ControllableTask) Launch() error {
 			t.sendStatus(t.knownEnvironmentId, mesos.TASK_FAILED, err.Error())
 			_ = t.rpc.Close()
 			t.rpc = nil
+			// the task is given up: do not leave its process group behind
+			_ = t.doTermIntKill(-taskCmd.Process.Pid)
 			return
 		}
 
